@@ -1,8 +1,9 @@
 /-
   Tie B for the encoder BODIES (C03; the same functions carry the frame theorems of C07).
   `Gen/Encoders.lean` is regenerated from the Go source on every run (tools/goextract/encoders.go): the body
-  of every straight-line in-place encoder — EncodeEther, EncodeIP4, EncodeIP6, EncodeUDP, EncodeARP and the
-  SetPayload / AppendPayload methods of Ether, IP4, IP6, UDP — translated statement by statement into Lean
+  of every straight-line encoder — EncodeEther, EncodeIP4, EncodeIP6, EncodeUDP, EncodeARP, EncodeICMPEcho, the
+  SetPayload / AppendPayload methods of Ether, IP4, IP6, UDP, and the builders that allocate their own buffer
+  (EncodeDNSQuery, ICMP6NeighborAdvertisementMarshal, ICMP6NeighborSolicitationMarshal) — translated statement by statement into Lean
   source over the memory primitives of Model/Encode.lean (`reslice`, `from_`, `put8`, `put16`, `copyAt`,
   `poke`).  Each theorem below proves the regenerated function EQUAL, for all memories, slices and
   arguments, to the hand-written model function that the theorems of Props/C03.lean (round trips, capacity
@@ -19,6 +20,7 @@
 import PacketVerif.Gen.Encoders
 import PacketVerif.Model.Encode
 import PacketVerif.Lemmas.EncodeMem
+import PacketVerif.Model.DnsName
 set_option linter.unusedSimpArgs false
 namespace PV.Props.C03EncTie
 open PV PV.Model PV.Lemmas
@@ -105,19 +107,120 @@ theorem encodeICMPEcho_small (g : Mem) (t code : UInt8) (id seq : Nat) (data : B
   unfold Gen.Enc.EncodeICMPEcho
   rw [if_pos (by simp [whole, Sl.cap]; omega)]
 
+/-! ### builders that allocate their own buffer: `b := make([]byte, n)` is the one (zeroed) backing array -/
+
+/-- the bytes a builder returns -/
+abbrev built (r : Outcome (Mem × Sl)) : Outcome Bytes := r >>= fun x => pure (x.2.bytes x.1)
+
+theorem as16_len (ip : Bytes) : (as16 ip).length = 16 := by
+  unfold as16; split
+  · simp_all
+  · split <;> simp_all
+
+theorem naMarshal_tie (r s o : Bool) (ip mac : Bytes) (port : Nat) (hm : mac.length = 6) :
+    built (Gen.Enc.ICMP6NeighborAdvertisementMarshal r s o mac ip port) =
+      .ok (naMarshal r s o ip mac) := by
+  have hL := as16_len ip
+  unfold Gen.Enc.ICMP6NeighborAdvertisementMarshal naMarshal
+  generalize as16 ip = L at hL ⊢
+  cells hL; cells hm
+  cases r <;> cases s <;> cases o <;>
+  · simp only [List.replicate]
+    enc_exec
+    simp
+
+theorem nsMarshal_tie16 (ip mac : Bytes) (hi : ip.length = 16) (hm : mac.length = 6) :
+    built (Gen.Enc.ICMP6NeighborSolicitationMarshal ip mac) = .ok (nsMarshal ip mac) := by
+  unfold Gen.Enc.ICMP6NeighborSolicitationMarshal nsMarshal
+  cells hi; cells hm
+  simp only [List.replicate]
+  enc_exec
+  simp
+
+theorem nsMarshal_tie4 (ip mac : Bytes) (hi : ip.length = 4) (hm : mac.length = 6) :
+    built (Gen.Enc.ICMP6NeighborSolicitationMarshal ip mac) = .ok (nsMarshal ip mac) := by
+  unfold Gen.Enc.ICMP6NeighborSolicitationMarshal nsMarshal
+  cells hi; cells hm
+  simp only [List.replicate]
+  enc_exec
+  simp
+
+theorem nsMarshal_tie0 (mac : Bytes) (hm : mac.length = 6) :
+    built (Gen.Enc.ICMP6NeighborSolicitationMarshal [] mac) = .ok (nsMarshal [] mac) := by
+  unfold Gen.Enc.ICMP6NeighborSolicitationMarshal nsMarshal
+  cells hm
+  simp only [List.replicate]
+  enc_exec
+  simp
+
+theorem put16From_abs (m : Mem) (s : Sl) (a v : Nat) (ha : a + 2 ≤ s.len) (hb : s.off + s.len ≤ m.length) :
+    s.put16From m a v = .ok (poke m (s.off + a) [hi8 (v % 65536), lo8 (v % 65536)]) := by
+  unfold Sl.put16From
+  rw [from_abs m s a (by omega) hb]
+  simp only [Outcome.bind_ok]
+  rw [if_neg (by simp; omega)]
+  rfl
+
+theorem put16_eq (v : Nat) (h : v < 65536) : [hi8 (v % 65536), lo8 (v % 65536)] = put16 v := by
+  simp [hi8, lo8, put16, Nat.mod_eq_of_lt h]
+
+theorem poke_after (pre Z bs : Bytes) (k : Nat) (hk : k = pre.length) :
+    poke (pre ++ Z) k bs = pre ++ (bs ++ Z.drop bs.length) := by
+  rw [poke_pre pre Z k 0 bs (by omega), poke_zero]
+
+theorem encodeDNSQuery_tie (id fl qt : Nat) (name : Bytes) (hid : id < 65536) (hfl : fl < 65536) (hqt : qt < 65536)
+    (hn : name.length ≤ 496) :
+    built (Gen.Enc.EncodeDNSQuery id fl name qt) = encodeDNSQuery id fl name qt := by
+  unfold Gen.Enc.EncodeDNSQuery encodeDNSQuery
+  have hmin : min name.length 500 = name.length := by omega
+  have hmin' : min 500 name.length = name.length := by omega
+  simp only [hmin]
+  rw [if_neg (by omega), if_neg (by omega)]
+  rw [show List.replicate 512 (0 : UInt8) = [0,0,0,0,0,0,0,0,0,0,0,0] ++ List.replicate 500 0 from by rfl]
+  simp only [List.cons_append, List.nil_append]
+  enc_exec
+  -- the header is written; name the memory H ++ Z
+  have hM : ∀ Z : Bytes, (hi8 id :: lo8 id :: hi8 fl :: lo8 fl :: hi8 1 :: lo8 1 :: hi8 0 :: lo8 0 :: hi8 0 :: lo8 0 ::
+      hi8 0 :: lo8 0 :: Z) = [hi8 id, lo8 id, hi8 fl, lo8 fl, hi8 1, lo8 1, hi8 0, lo8 0, hi8 0, lo8 0, hi8 0, lo8 0] ++ Z :=
+    fun _ => rfl
+  rw [hM]
+  generalize hH : [hi8 id, lo8 id, hi8 fl, lo8 fl, hi8 1, lo8 1, hi8 0, lo8 0, hi8 0, lo8 0, hi8 0, lo8 0] = H
+  have hHl : H.length = 12 := by subst hH; rfl
+  rw [from_abs _ _ 12 (by decide) (by first | omega | (simp only [List.length_append, List.length_replicate, List.length_cons, List.length_nil, hHl, Nat.zero_add] <;> omega))]
+  simp only [bind_ok', Nat.zero_add, Nat.sub_self, hmin', ← poke_eq_pokeC]
+  rw [show (512 - 12 : Nat) = 500 from rfl, List.take_of_length_le (by omega : name.length ≤ 500)]
+  rw [poke_after H _ name 12 hHl.symm, List.drop_replicate]
+  -- question type
+  rw [put16From_abs _ _ _ _ (by first | omega | (simp only [List.length_append, List.length_replicate, List.length_cons, List.length_nil, hHl, Nat.zero_add] <;> omega)) (by first | omega | (simp only [List.length_append, List.length_replicate, List.length_cons, List.length_nil, hHl, Nat.zero_add] <;> omega))]
+  simp only [bind_ok', Nat.zero_add]
+  rw [← List.append_assoc H name, poke_after (H ++ name) _ _ (12 + name.length) (by first | omega | (simp only [List.length_append, List.length_replicate, List.length_cons, List.length_nil, hHl, Nat.zero_add] <;> omega))]
+  rw [List.drop_replicate]
+  -- class IN
+  rw [put16From_abs _ _ _ _ (by first | omega | (simp only [List.length_append, List.length_replicate, List.length_cons, List.length_nil, hHl, Nat.zero_add] <;> omega)) (by first | omega | (simp only [List.length_append, List.length_replicate, List.length_cons, List.length_nil, hHl, Nat.zero_add] <;> omega))]
+  simp only [bind_ok', Nat.zero_add]
+  rw [← List.append_assoc (H ++ name), poke_after (H ++ name ++ _) _ _ (14 + name.length) (by first | omega | (simp only [List.length_append, List.length_replicate, List.length_cons, List.length_nil, hHl, Nat.zero_add] <;> omega))]
+  rw [reslice_abs _ _ 0 _ (by omega) (by first | omega | (simp only [List.length_append, List.length_replicate, List.length_cons, List.length_nil, hHl, Nat.zero_add] <;> omega))]
+  simp only [bind_ok', Outcome.pure_eq, Sl.bytes, Nat.zero_add, Nat.sub_zero, List.drop_zero]
+  congr 1
+  rw [← List.append_assoc (H ++ name ++ _), List.take_left' (by first | omega | (simp only [List.length_append, List.length_replicate, List.length_cons, List.length_nil, hHl, Nat.zero_add] <;> omega))]
+  subst hH
+  simp [put16_eq, hid, hfl, hqt, List.append_assoc]
+  simp [put16, hi8, lo8]
+
 /-! ### nothing hidden: what was translated, what was not, and under which assumptions -/
 
 /-- the translated encoders are exactly the ones tied above -/
 theorem translated_accounted : Gen.Enc.encodersTranslated =
-    ["EncodeARP", "EncodeEther", "EncodeICMPEcho", "EncodeIP4", "EncodeIP6", "EncodeUDP", "Ether_SetPayload",
+    ["EncodeARP", "EncodeDNSQuery", "EncodeEther", "EncodeICMPEcho", "EncodeIP4", "EncodeIP6", "EncodeUDP",
+     "Ether_SetPayload", "ICMP6NeighborAdvertisementMarshal", "ICMP6NeighborSolicitationMarshal",
      "IP4_AppendPayload", "IP4_SetPayload", "IP6_AppendPayload", "IP6_SetPayload", "UDP_AppendPayload",
      "UDP_SetPayload"] := by decide
 
 /-- the candidates the translator cannot express: EncodeDHCP4 (options map, modelled in Model/Dhcp4Opt, C03Dhcp),
-    EncodeDNSQuery (allocates; C03Dns / C17), Ether.AppendPayload (`cap(payload)`, padding loop; modelled by
+    Ether.AppendPayload (`cap(payload)`, padding loop; modelled by
     `etherAppendPayloadLen`, tied by the correspondence run) -/
 theorem untranslated_accounted : Gen.Enc.encodersUntranslated.map (·.1) =
-    ["EncodeDHCP4", "EncodeDNSQuery", "Ether_AppendPayload"] := by decide
+    ["EncodeDHCP4", "Ether_AppendPayload"] := by decide
 
 /-- the assumptions under which a translation is exact (each is a hypothesis or a remark of a theorem above) -/
 theorem assumptions_accounted : Gen.Enc.encoderAssumptions =
